@@ -1,10 +1,13 @@
 (* Extraction of the C03 model for the correspondence driver.  ExtrOcamlBasic and
    ExtrOcamlString only: N, Z, positive, nat stay the extracted inductive datatypes. *)
-From SV Require Import Base.Prelude Base.Bytes Model.Murmur Model.PartKey Model.PartName.
+From SV Require Import Base.Prelude Base.Bytes Model.Cql Model.Shard Model.Murmur Model.PartKey Model.PartName
+  Model.PartKeyTyped.
 Require Extraction.
 Require Import ExtrOcamlBasic ExtrOcamlString.
 Extraction Language OCaml.
 Extraction "../ocaml/c03/model.ml" hash_one feed token_spec murmur3_token_spec cdc_token_spec
   pk_new encoded_pk_chunks ps_calculate_token ps_compute_partition_key token_for_partition_key
   key_okb prop_token_ok prop_pk_token_ok spec_token spec_serialized_key spec_components
-  hash3_x64_128 partitioner_from_str table_partitioner ends_with cdc_suffix murmur3_suffix.
+  hash3_x64_128 partitioner_from_str table_partitioner ends_with cdc_suffix murmur3_suffix
+  prepared_partitioner partitioners_get typed_row ps_calculate_token_typed ps_compute_partition_key_typed
+  shard_of spec_shard_of.
